@@ -84,30 +84,36 @@ def check_apply(prog, rep, m):
     wl = [l for l in w.loops if l.var not in (repr(Y), repr(X))]
     hr, hc = half(kernel, 0), half(kernel, 1)
     one = Rat.const(1)
-    ky = kx = None
-    for l in wl:
-        v = Rat.sym(l.var)
-        if l.lo == Y - hr and l.hi == Y + hr + one:
-            ky = v
-        elif l.lo == X - hc and l.hi == X + hc + one:
-            kx = v
-    rep.add('F1', f, entry, 'window loops %s' % [(repr(l.lo), repr(l.hi)) for l in wl], w.node.lineno,
-            ky is not None and kx is not None and len(wl) == 2,
-            'the window spans rows y +- kernel.shape[0]//2 and columns x +- kernel.shape[1]//2 (each half size from its '
-            'own kernel axis)')
-    if ky is None or kx is None:
+    at = _single(w.value)
+    if at is None or at.name != 'read' or at.args[0] != data or len(at.args) != 3 or len(w.idx) != 2:
+        rep.add('F1', f, entry, norm(w.node), w.node.lineno, False,
+                'the window buffer must receive one cell of the raster per position; got %r' % (w.value,))
         return
-    want_idx = (ky - Y + hr, kx - X + hc)
-    want_val = Rat.atom(App('read', [data, ky, kx]))
-    ok = tuple(w.idx) == want_idx and w.value == want_val
+    a, b = w.idx            # position in the window buffer
+    c, d = at.args[1], at.args[2]   # position in the raster
+    ok = (c - a) == (Y - hr) and (d - b) == (X - hc)
     rep.add('F1', f, entry, norm(w.node), w.node.lineno, ok,
-            'window[ky - y + half_rows, kx - x + half_cols] must receive data[ky, kx] (no transpose, no mirror): got '
-            'index (%r, %r) <- %r' % (w.idx[0], w.idx[1], w.value))
+            'window[i, j] must receive data[y - half_rows + i, x - half_cols + j] (identity orientation: no transpose, no '
+            'mirror, each half size from its own kernel axis): got window[%r, %r] <- data[%r, %r]' % (a, b, c, d))
+    # the window positions cover the whole kernel: i in [0, k0), j in [0, k1)  (k = 2*half + 1, kernels are odd)
+    def span(pos, lvars):
+        vs = [l for l in lvars if Sym(l.var) in pos.atoms()]
+        if len(vs) != 1 or vs[0].lo is None:
+            return None
+        off = pos - Rat.sym(vs[0].var)
+        return vs[0].lo + off, vs[0].hi + off
+    sa, sb = span(a, wl), span(b, wl)
+    full = lambda sp, ax: sp is not None and sp[0] == Rat.const(0) and (   # noqa
+        sp[1] == Rat.const(2) * half(kernel, ax) + one or sp[1] == shp(kernel, ax))
+    rep.add('F1', f, entry, 'window positions rows %s cols %s' % (sa and tuple(map(repr, sa)), sb and tuple(map(repr, sb))),
+            w.node.lineno, len(wl) == 2 and full(sa, 0) and full(sb, 1),
+            'the window loops must visit every kernel position: rows 0..kernel.shape[0], columns 0..kernel.shape[1] '
+            '(equivalently y +- shape[0]//2, x +- shape[1]//2)')
     gs = flatten_and(w.guards)
     keys = {cond_key(g) for g in gs if g[0] == 'cmp'}
-    need = {cond_key(cmp_cond('>=', ky, Rat.const(0))), cond_key(cmp_cond('<', ky, shp(data, 0))),
-            cond_key(cmp_cond('>=', kx, Rat.const(0))), cond_key(cmp_cond('<', kx, shp(data, 1)))}
-    kgate = cond_key(cmp_cond('==', Rat.atom(App('read', [kernel, want_idx[0], want_idx[1]])), Rat.const(1)))
+    need = {cond_key(cmp_cond('>=', c, Rat.const(0))), cond_key(cmp_cond('<', c, shp(data, 0))),
+            cond_key(cmp_cond('>=', d, Rat.const(0))), cond_key(cmp_cond('<', d, shp(data, 1)))}
+    kgate = cond_key(cmp_cond('==', Rat.atom(App('read', [kernel, a, b])), Rat.const(1)))
     ok = need <= keys and kgate in keys and len(keys) == 5
     rep.add('F1', f, entry, 'guards of the window copy: %s' % [cond_repr(g)[:60] for g in gs], w.node.lineno, ok,
             'a neighbour is copied iff it lies inside the raster (rows against the row extent, columns against the column '
@@ -381,7 +387,8 @@ def check_dask_halos(prog, rep):
         for g in C01.dask_reachable(prog, f_da, 'dask'):
             if g.jit is not None:
                 continue
-            for site in sites_in(prog, g):
+            from ..dasksites import expanded_sites
+            for site in expanded_sites(prog, g):
                 if site.kernel() is not None and not C01.is_gpu(site.kernel()) and not C01.is_gpu(site.scope):
                     C01.check_site(prog, rep, '%s[dask]' % fname, site, np_funcs,
                                    C01.SAME if fname != 'hotspots' else C01.PIPE)
